@@ -11,7 +11,9 @@ A case is JSON:
   {"combo": "pc-plock"|"pc-alock"|"ic-alock",
    "cons": [{"pri": int, "py": bool, "wf": bool}, ...],          # 2..5 waiters
    "env":  [["step"], ["put", n, hold], ["putall", t, hold], ["cancel", i], ["throw", i, cls],
-            ["intr", i, cls], ["drain"], ...]}     # drain = run until the loop is idle
+            ["intr", i, cls], ["drain"], ["poke", n, hold], ["setpri", i, p], ...]}
+            # drain = run until the loop is idle; poke = notify(n) without adding tokens (woken waiters find the
+            # predicate still false and wait again); setpri = `task.priority_value = p` of a PriorityTask consumer
 Everything is deterministic given the case (single thread, no timers, no real time).
 """
 from __future__ import annotations
@@ -322,7 +324,7 @@ class Runner:
                 cond.notify_all()
                 self.post_notify(t)
             else:
-                self.tokens += n
+                self.tokens += n if tokens is None else tokens
                 self.pre_notify(t, n)
                 cond.notify(n)
                 self.post_notify(t)
@@ -411,11 +413,20 @@ class Runner:
     def do_op(self, op):
         """perform one environment op (never 'step'); returns True when it did something"""
         kind = op[0]
-        if kind == "put" or kind == "putall":
+        if kind == "setpri":
+            task = self.tasks.get(op[1])
+            if task is None or task.done() or self.cons[op[1]]["py"]:
+                return False
+            task.priority_value = op[2]
+            self.tags.add("priority-changed-while-waiting")
+            return True
+        if kind in ("put", "putall", "poke"):
             t = 100 + self.nprod
             self.nprod += 1
             if kind == "put":
                 co = self.producer(t, op[1], op[2])
+            elif kind == "poke":
+                co = self.producer(t, op[1], op[2], tokens=0)
             else:
                 co = self.producer(t, None, op[2], tokens=op[1])
             self.keep.append(co)
